@@ -19,3 +19,5 @@ pub mod e_total;
 pub mod audit;
 pub mod e_gc;
 pub mod e_bytecode;
+pub mod e_budget;
+pub mod e_lifecycle;
